@@ -216,6 +216,11 @@ impl Variant {
         }
     }
 
+    /// Whether the value is a date, or a text that reads as one
+    pub fn is_datetime(&self) -> bool {
+        self.dt_from.is_some() || parse_datetime(&self.string_value).is_ok()
+    }
+
     pub fn to_datetime(&self) -> (NaiveDateTime, NaiveDateTime) {
         if self.dt_from.is_none() {
             match parse_datetime(&self.string_value) {
